@@ -24,6 +24,7 @@
 #include <functional>
 #include <unistd.h>
 #include <fcntl.h>
+#include <sys/time.h>
 
 #if defined(__SANITIZE_ADDRESS__) || defined(__SANITIZE_THREAD__)
 #define VH_HAVE_SANITIZER 1
@@ -147,7 +148,7 @@ struct State {
   std::vector<std::string> samples;
   std::unordered_map<std::string, unsigned> viol_per_sig;
   // crash capture: preformatted line for the current case
-  char cur[1 << 16];
+  char cur[1 << 20];
   volatile size_t curlen = 0;
 };
 inline State& st() { static State s; return s; }
@@ -171,6 +172,9 @@ inline void set_case(const Case& c) {
   s.curlen = 0;
   memcpy(s.cur, h.data(), n);
   s.curlen = n;
+  // under tools that end the process without running our handlers (valgrind --exit-on-first-error) every case is logged up front
+  static const bool each = getenv("VERIF_LOG_EACH_CASE") != nullptr;
+  if (each && s.fd >= 0) { const char* a = "{\"t\":\"crash\",\"case\":\""; (void)!::write(s.fd, a, strlen(a)); (void)!::write(s.fd, s.cur, s.curlen); (void)!::write(s.fd, "\"}\n", 3); }
 }
 inline void crash_dump() {
   State& s = st();
@@ -185,17 +189,24 @@ inline void crash_dump() {
 }
 inline void on_signal(int sig) {
   crash_dump();
-  if (sig == SIGTERM || sig == SIGALRM) _exit(124);
+  if (sig == SIGALRM || sig == SIGPROF) _exit(124);   // per-case watchdog (wall clock / CPU time) fired
+  if (sig == SIGTERM) _exit(125);                     // driver's outer wall-clock watchdog
   signal(sig, SIG_DFL);
   raise(sig);
 }
 inline void install_crash_handlers() {
-  for (int sg : {SIGSEGV, SIGABRT, SIGBUS, SIGFPE, SIGILL, SIGTERM, SIGALRM}) signal(sg, on_signal);
+  for (int sg : {SIGSEGV, SIGABRT, SIGBUS, SIGFPE, SIGILL, SIGTERM, SIGALRM, SIGPROF}) signal(sg, on_signal);
 #ifdef VH_HAVE_SANITIZER
   __sanitizer_set_death_callback(crash_dump);
 #endif
 }
 
+// per-case watchdog on *CPU time* of this process (ITIMER_PROF), so that a loaded machine cannot fire it; 0 disarms.
+// Firing = exit code 124 with the current case recorded; the driver re-runs that case in isolation before judging.
+inline void cpu_budget(unsigned seconds) {
+  struct itimerval tv; memset(&tv, 0, sizeof tv); tv.it_value.tv_sec = seconds;
+  setitimer(ITIMER_PROF, &tv, nullptr);
+}
 inline void count(const std::string& name, uint64_t n = 1) { st().counters[name] += n; }
 inline void klass(uint64_t h) { auto& c = st().classes; if (c.size() < 2000000) c.insert(h); }
 inline void sample(const std::string& s, size_t cap = 12) {
